@@ -66,6 +66,23 @@ func (ev *Eval) eval(e SExpr) (Val, error) {
 	return ev.force(s), nil
 }
 
+// withBound: the other-state evaluation context with the variables bound so far (quantifier binders, spec
+// function parameters) visible in it.
+func (ev *Eval) withBound(other *Eval) *Eval {
+	if len(ev.vars) == 0 {
+		return other
+	}
+	sub := *other
+	sub.vars = make(map[string]Val, len(other.vars)+len(ev.vars))
+	for k, v := range other.vars {
+		sub.vars[k] = v
+	}
+	for k, v := range ev.vars {
+		sub.vars[k] = v
+	}
+	return &sub
+}
+
 func boolVal(t Term) Val               { return Val{Typ: tBool, Comps: []Term{t}} }
 func intVal(t Term, ty types.Type) Val { return Val{Typ: ty, Comps: []Term{t}} }
 
@@ -390,6 +407,17 @@ func (ev *Eval) selectField(base sval, sel string) (sval, error) {
 	T := base.v.Typ
 	obj, path, _ := types.LookupFieldOrMethod(T, true, ev.pkg, sel)
 	if obj == nil {
+		// an unexported field of a type of another package (specifications may name it): look it up in the
+		// declaring package's scope
+		tt := T
+		if pt, ok := under(tt).(*types.Pointer); ok {
+			tt = pt.Elem()
+		}
+		if nt, ok := tt.(*types.Named); ok && nt.Obj() != nil && nt.Obj().Pkg() != nil {
+			obj, path, _ = types.LookupFieldOrMethod(T, true, nt.Obj().Pkg(), sel)
+		}
+	}
+	if obj == nil {
 		return sval{}, fmt.Errorf("no field %s in %v", sel, T)
 	}
 	if _, isVar := obj.(*types.Var); !isVar {
@@ -644,7 +672,7 @@ func (ev *Eval) call(x *SCall) (sval, error) {
 			if ev.header == nil {
 				return sval{}, fmt.Errorf("header() is only available in loop step assertions")
 			}
-			v, err := ev.header.eval(x.Args[0])
+			v, err := ev.withBound(ev.header).eval(x.Args[0])
 			return sval{v: v}, err
 		case "has":
 			// has(m, k): k is a key of map m
@@ -669,7 +697,7 @@ func (ev *Eval) call(x *SCall) (sval, error) {
 			if ev.pre == nil {
 				return sval{}, fmt.Errorf("pre() is only available in loop invariants and step assertions")
 			}
-			v, err := ev.pre.eval(x.Args[0])
+			v, err := ev.withBound(ev.pre).eval(x.Args[0])
 			return sval{v: v}, err
 		case "len", "cap":
 			v, err := ev.eval(x.Args[0])
